@@ -1250,6 +1250,7 @@ where
                     if offset_table.is_none() {
                         offset_table = Some(Vec::new())
                     }
+                    first = false;
                 }
                 LazyDataToken::ItemStart { len: _ } => { /* no-op */ }
                 LazyDataToken::SequenceEnd => {
